@@ -40,8 +40,10 @@ ASSUMPTIONS = [
     "a transport is attached; CompIDs and Codec.current_datetime() are latin-1 text; numbers fit SQLite's 64-bit INTEGER",
     "should_replay is a total, side-effect free predicate of the decoded journal row (an application hook that raises or "
     "sends is outside the model); on_state_change returns normally",
-    "journal rows carry no repeating groups (the session layer copies ordinary tags; group payloads are the codec "
-    "family's business); tags are distinct within a row",
+    "the THEOREMS are stated for journal rows as flat field lists whose lookups see the first occurrence of a tag (rows "
+    "without repeating groups / distinct tags is the modelling restriction of Model/SessionTypes.lean); rows carrying "
+    "top-level and nested repeating groups of the protocol's table are covered by the correspondence (the model, run on the "
+    "flat wire field list, agrees with the real decode / encode round trip) and by the oracle's body-identity clause",
 ]
 MODELLED_NOT_VERIFIED = [
     "C06: application hooks return normally WITHOUT calling back into the connection in the model and the theorems; a hook "
@@ -69,11 +71,15 @@ MODELLED_NOT_VERIFIED = [
 # 14 slot kinds: application; declined application; the 6 session types; hole; retransmitted copy; left-over
 # gap fill; application row the application sent with an explicit PossDupFlag 43=N ("n"), with another non-Y
 # value ("p": 43=n / 43=0 / empty-looking "NO"), and with a stale OrigSendingTime(122) but no 43 ("o")
-FULL = ["a", "x", "s0", "s1", "s2", "s4", "s5", "sA", "h", "r", "g", "n", "p", "o"]
+# + "q": application row with a top-level repeating group of the protocol's table (NoPartyIDs 453 x 2), "Q": with a
+# nested group (453 -> 802), "u": application row of a user-defined / unusual MsgType (U2, UHR, XX, A1, 00, d)
+FULL = ["a", "x", "s0", "s1", "s2", "s4", "s5", "sA", "h", "r", "g", "n", "p", "o", "q", "Q", "u"]
 # folded alphabet for the long journals: 's' = one session type, rotating through all 6;
 # 'A' = one replayable application row, rotating through a / n / p / o
 RED = ["A", "x", "s", "h", "r", "g"]
-APP_KINDS = ["a", "n", "p", "o"]
+APP_KINDS = ["a", "n", "p", "o", "q", "Q", "u"]
+U_TYPES = ["U2", "UHR", "XX", "A1", "00", "d"]       # near-miss members of the never-retransmitted set included
+_GROWS = {}
 SESS_TYPES = ["0", "1", "2", "4", "5", "A"]
 NOREPLAY = {"0", "1", "2", "4", "5", "A"}          # FIX session-level messages that are never resent
 ENVELOPE = {8, 9, 35, 49, 56, 34, 52, 10, 43, 122}
@@ -88,7 +94,11 @@ def slot_row(letter, n, k=0):
     if letter == "s":
         letter = "s" + SESS_TYPES[(n + k) % 6]
     if letter == "A":
-        letter = APP_KINDS[(n + k) % 4]
+        letter = APP_KINDS[(n + k) % 7]
+    if letter in ("q", "Q"):
+        return group_row(n, letter == "Q")
+    if letter == "u":
+        return S.row("S", "T", U_TYPES[(n + k) % 6], ((58, "user defined type"),), n, T0)
     if letter == "n":   # header field 43 with its default value, in the middle of the message's own tags
         return S.row("S", "T", "D", ((11, f"o{n}"), (43, "N"), (58, "x")), n, T0)
     if letter == "p":
@@ -109,6 +119,38 @@ def slot_row(letter, n, k=0):
     tags = {"0": (), "1": ((112, "t1"),), "2": ((7, "1"), (16, "0")), "4": ((36, str(n + 3)),),
             "5": ((58, "bye"),), "A": ((98, "0"), (108, "30"))}[t]
     return S.row("S", "T", t, tags, n, T0)
+
+
+def group_row(n, nested):
+    """application row carrying a repeating group, made by the REAL encoder from a FIXMessage with group items;
+    the row is the flat wire field list (group member tags repeat)"""
+    key = (n, nested)
+    if key not in _GROWS:
+        from asyncfix import FIXMessage
+        from asyncfix.codec import Codec
+        from asyncfix.message import FIXContainer
+        from asyncfix.protocol import FIXProtocol44
+        import types as _t
+
+        m = FIXMessage("D", {11: f"o{n}"})
+        items = []
+        for j in (1, 2):
+            it = FIXContainer({448: f"P{j}", 447: "D", 452: str(j)})
+            if nested:
+                it.set_group(802, [{523: f"sub{j}a", 803: "1"}, {523: f"sub{j}b", 803: "2"}])
+            items.append(it)
+        m.set_group(453, items)
+        m.set(58, "x")
+        m.set(34, n)
+        old = Codec.__dict__["current_datetime"]
+        Codec.current_datetime = staticmethod(lambda: S.stamp(T0))
+        try:
+            raw = Codec(FIXProtocol44()).encode(
+                m, _t.SimpleNamespace(sender_comp_id="S", target_comp_id="T"), raw_seq_num=True).encode("latin-1")
+        finally:
+            Codec.current_datetime = old
+        _GROWS[key] = (n, ("D", S.bytes_to_fields(raw)))
+    return _GROWS[key]
 
 
 def make_abs(case):
@@ -133,7 +175,7 @@ def make_abs(case):
     mode = case.get("sr", "letters")
     if mode == "none":
         sr, declined = "none", {r[0] for r in rows}
-    elif mode == "all" or not declined:
+    elif mode in ("all", "default") or not declined:     # default = the library's own should_replay (replays everything)
         sr, declined = "all", set()
     else:
         sr = "d" + ",".join(str(x) for x in sorted(declined))
@@ -369,7 +411,13 @@ def run_impl(impl, case):
     a, sr, declined = make_abs(case)
     steps = []
     rep = case.get("repeat", 1)
-    set_protocol(impl, case.get("proto", "fix44"))
+    proto = case.get("proto", "fix44")
+    if proto == "bare" and any(x in ("q", "Q", "A") for x in case["journal"]):
+        proto = "custom"        # rows with repeating groups need a dictionary that knows the groups
+    set_protocol(impl, proto)
+    if case.get("sr") == "default":      # configuration "should_replay not overridden": the library's default hook
+        import types as _t
+        impl.conn.should_replay = _t.MethodType(impl.cm.AsyncFIXConnection.should_replay, impl.conn)
     install_clock(impl)
     clock = CLOCKS[case.get("clock", "forward")]
     if case.get("hook"):
@@ -385,6 +433,7 @@ def run_impl(impl, case):
                 a = S.parse_conn_tokens(post)
     finally:
         remove_hook(impl)
+        impl.conn.__dict__.pop("should_replay", None)
     return steps
 
 
@@ -652,7 +701,7 @@ def enum_cases(alphabet, lengths, states=(17, 12), awaiting_every=1, every=1, ph
                 for b in be_range(n):
                     for e in be_range(n):
                         yield {"journal": list(J), "b": b, "e": e, "state": st, "role": 1 + idx % 2, "k": idx,
-                               "proto": PROTO_ROT[idx % 5]}
+                               "proto": PROTO_ROT[idx % 5], "sr": "default" if idx % 2 else "letters"}
 
 
 PROTO_ROT = ["fix44", "custom", "fix44", "bare", "fix44"]
@@ -745,7 +794,7 @@ def sample_cases(rng, count, maxlen=4):
         b = rng.choice(list(be_range(n, base)) + [0, -1, 1])
         e = rng.choice(list(be_range(n, base)) + [0, 0, 0, 999999, 9999, 2 ** 31 - 1, 2 ** 63, 2 ** 64])
         yield {"journal": J, "b": b, "e": e, "state": rng.choice([17, 17, 12]), "role": rng.choice([1, 2]), "base": base,
-               "sr": rng.choice(["letters", "letters", "letters", "none", "all"]), "k": i,
+               "sr": rng.choice(["letters", "letters", "default", "default", "none", "all"]), "k": i,
                "repeat": rng.choice([1, 1, 1, 2, 3]), "proto": rng.choice(PROTO_ROT),
                "spell": rng.choice(["plain", "plain", "zeros", "plus", "ws", "under"]),
                "clock": rng.choice(["forward"] * 3 + list(CLOCKS)),
@@ -787,7 +836,7 @@ class Stats:
     def __init__(self):
         self.d = {"class": {}, "length": {}, "state": {}, "frames": {}, "slots": {}, "requests_in_sequence": {},
                   "protocol_dictionary": {}, "magnitude_of_next_num_out": {}, "bound_hits_round_constant": {},
-                  "request_spelling": {}, "magnitude_of_next_num_in": {}, "wall_clock": {},
+                  "request_spelling": {}, "magnitude_of_next_num_in": {}, "wall_clock": {}, "should_replay_hook": {},
                   "hook_sends_at_state": {}}
         self.nontrivial = set()
 
@@ -805,6 +854,7 @@ class Stats:
         self.inc("magnitude_of_next_num_in", "1e%d" % (len(str(a.next_in)) - 1))
         self.inc("request_spelling", case.get("spell", "plain"))
         self.inc("wall_clock", case.get("clock", "forward"))
+        self.inc("should_replay_hook", {"default": "library default (not overridden)"}.get(case.get("sr", "letters"), case.get("sr", "letters")))
         self.inc("hook_sends_at_state", case.get("hook", "-"))
         hit = [k for k in CONSTS if case["e"] == k or case["b"] == k]
         self.inc("bound_hits_round_constant", hit[0] if hit else "-")
@@ -852,12 +902,12 @@ def run_both(ctx, impl, drv, cases, stats, dis, impl_fail, maxdis=40):
 MAG_RULE_T = ("; MAGNITUDE: for each of 16 round constants K (9 .. 999999, 1000000, 2^31-1, 2^31, 2^32, 2^53, sys.maxsize) every "
               "journal of length <= 2 over the 6 slot classes placed at every offset that makes K the number before the journal, "
               "one of its rows, its last row or the next number x every BeginSeqNo / EndSeqNo in {numbers around the journal, K-1, "
-              "K, K+1, 0} x ACTIVE (length <= 1 also RESENDREQ_AWAITING), + 12 sampled journals of length 3 (14 kinds) per K with the edge requests; the request's own "
+              "K, K+1, 0} x ACTIVE (length <= 1 also RESENDREQ_AWAITING), + 12 sampled journals of length 3 (17 kinds) per K with the edge requests; the request's own "
               "MsgSeqNum at 5 / K-1 / K / K+1; protocol dictionary rotating FIXProtocol44 / custom FIXProtocolBase subclass "
               "without session_message_types / beginstring-only subclass in ALL enumerations; 300 long journals (30-120 numbers); "
               "sampled requests with BeginSeqNo / EndSeqNo spelled with leading zeros, '+', white space, '_'")
 MAG_RULE_Q = ("; MAGNITUDE: for each of 16 round constants K (9 .. 999999, 1000000, 2^31-1, 2^31, 2^32, 2^53, sys.maxsize) every "
-              "1-row journal over the 6 slot classes and one sampled journal each of length 2 and 3 (14 kinds), at every offset "
+              "1-row journal over the 6 slot classes and one sampled journal each of length 2 and 3 (17 kinds), at every offset "
               "that makes K the number before the journal, one of its rows or the next number, x BeginSeqNo in {first, last, K-1, "
               "K, K+1} x EndSeqNo in {0, K-1, K, K+1, last, last+1}; protocol dictionary rotating FIXProtocol44 / custom "
               "FIXProtocolBase subclass without session_message_types / beginstring-only subclass in ALL enumerations; 25 long "
@@ -881,10 +931,10 @@ def correspondence(ctx):
         fixed = [dict(c, repeat=c.get("repeat", 3)) for c in corpus_cases() + WITNESSES]
         n += run_both(ctx, impl, drv, fixed, stats, dis, impl_fail)
         if ctx.tier == "thorough":
-            rule = ("complete: every journal of length <= 3 over the 14 slot kinds x every (b, e) in [-1, len+2]^2 x {ACTIVE, "
+            rule = ("complete: every journal of length <= 3 over the 17 slot kinds x every (b, e) in [-1, len+2]^2 x {ACTIVE, "
                     "RESENDREQ_AWAITING}; every journal of length 4 and 5 over the 6 slot classes (the session type of an 's' slot "
-                    "rotates through all 6, an application slot through plain / 43=N / 43=other / stale-122) x every (b, e) x ACTIVE (length 5: every 3rd journal, the third chosen by VERIF_SEED), and x RESENDREQ_AWAITING "
-                    "for length 4 and every 9th journal of length 5; + 8000 sampled cases (length <= 5, all 14 kinds, counters 1 / 7 / 2^32, filter modes, 1-3 "
+                    "rotates through all 6, an application slot through plain / 43=N / 43=other / stale-122 / repeating group / nested group / user-defined MsgType) x every (b, e) x ACTIVE (length 5: every 3rd journal, the third chosen by VERIF_SEED), and x RESENDREQ_AWAITING "
+                    "for length 4 and every 9th journal of length 5; + 8000 sampled cases (length <= 5, all 17 kinds, counters 1 / 7 / 2^32, filter modes, 1-3 "
                     "requests in sequence)")
             n += run_both(ctx, impl, drv, enum_cases(FULL, range(0, 4)), stats, dis, impl_fail)
             n += run_both(ctx, impl, drv, enum_cases(RED, [4]), stats, dis, impl_fail)
@@ -899,11 +949,11 @@ def correspondence(ctx):
             rule += MAG_RULE_T + R5_RULE
             exhaustive = True
         else:
-            rule = ("complete for journals of length <= 2 over the 14 slot kinds x every (b, e) in [-1, len+2]^2 x ACTIVE, and x "
-                    "RESENDREQ_AWAITING for length <= 1 and every 3rd journal of length 2; + 2400 sampled cases (length <= 4, all 14 kinds, counters 1 / 7 / 2^32, filter modes "
+            rule = ("complete for journals of length <= 1 and every 2nd journal of length 2 (the half chosen by VERIF_SEED) over the 17 slot kinds (incl. rows with top-level / nested repeating groups and user-defined MsgTypes) x every (b, e) in [-1, len+2]^2 x ACTIVE, should_replay alternately the library's default hook and the harness predicate, and x "
+                    "RESENDREQ_AWAITING for length <= 1 and every 3rd journal of length 2; + 2400 sampled cases (length <= 4, all 17 kinds, counters 1 / 7 / 2^32, filter modes "
                     "letters / none / all, 1-3 requests in sequence)")
             n += run_both(ctx, impl, drv, enum_cases(FULL, range(0, 2)), stats, dis, impl_fail)
-            n += run_both(ctx, impl, drv, enum_cases(FULL, [2], awaiting_every=3), stats, dis, impl_fail)
+            n += run_both(ctx, impl, drv, enum_cases(FULL, [2], awaiting_every=3, every=2, phase=ctx.seed), stats, dis, impl_fail)
             n += run_both(ctx, impl, drv, sample_cases(ctx.rng, 2400, 4), stats, dis, impl_fail)
             n += run_both(ctx, impl, drv, offset_cases(RED, [1], edge_only=True), stats, dis, impl_fail)
             n += run_both(ctx, impl, drv, offset_cases(FULL, [2, 3], ctx.rng, per_len=1, edge_only=True), stats, dis, impl_fail)
